@@ -3,6 +3,7 @@ package checks
 import (
 	"encoding/json"
 	"fmt"
+	"regexp"
 	"sort"
 	"strings"
 
@@ -151,7 +152,7 @@ func recoverImage(cfg hapi.Config, im vos.Image, at int64, second bool) recovere
 		}
 	})
 	if rt.Crash != nil {
-		res.Crash = rt.Crash.Value + "\n" + firstLines(rt.Crash.Stack, 18)
+		res.Crash = rt.Crash.Value + "\n" + stableStack(firstLines(rt.Crash.Stack, 18))
 	}
 	if rt.Deadlock != "" {
 		res.Crash = "deadlock: " + rt.Deadlock
@@ -429,3 +430,8 @@ func init() {
 		[]string{"crash model: process stop, completed writes durable; cuts of the two files are enumerated independently (one file cut at a time)", "histories are chosen so that consecutive records compose visibly (re-entrant depth, different keys, values)",
 			"the clean-prefix reference states are produced by the implementation's own loader on files cut at record boundaries"})
 }
+
+var reStackNoise = regexp.MustCompile(`0x[0-9a-f]+|goroutine \d+|\+0x[0-9a-f]+`)
+
+// stableStack removes addresses and goroutine numbers so that two executions of one case print the same text.
+func stableStack(s string) string { return reStackNoise.ReplaceAllString(s, "_") }
